@@ -98,4 +98,36 @@ theorem read_foldl_println (ds : List String) (w : World) (p : String) :
   | cons d ds ih => rw [List.foldl_cons, ih, read_println]
 
 
+theorem outPath_inj (dir a b : String) (h : outPath dir a = outPath dir b) : a = b := by
+  unfold outPath at h
+  have := congrArg String.toList h
+  simp only [String.toList_append] at this
+  have := List.append_cancel_left this
+  exact String.toList_inj.mp this
+
+theorem mem_of_lookup (l : List (String × String)) (p c : String) (h : l.lookup p = some c) : (p, c) ∈ l := by
+  induction l with
+  | nil => cases h
+  | cons x xs ih =>
+    rw [lookup_cons'] at h
+    by_cases e : p = x.1
+    · rw [if_pos e] at h
+      cases h
+      exact List.mem_cons.mpr (.inl (by rw [e]))
+    · rw [if_neg e] at h
+      exact List.mem_cons.mpr (.inr (ih h))
+
+theorem lookup_perm (l l' : List (String × String)) (p : String) (hp : l.Perm l') (hn : (l.map Prod.fst).Nodup) :
+    l.lookup p = l'.lookup p := by
+  have hn' : (l'.map Prod.fst).Nodup := (hp.map Prod.fst).nodup_iff.mp hn
+  cases h : l.lookup p with
+  | some c => exact (lookup_of_mem_nodup l' p c hn' (hp.mem_iff.mp (mem_of_lookup l p c h))).symm
+  | none =>
+    cases h' : l'.lookup p with
+    | none => rfl
+    | some c =>
+      have := lookup_of_mem_nodup l p c hn (hp.mem_iff.mpr (mem_of_lookup l' p c h'))
+      rw [h] at this; cases this
+
+
 end FinProtoc.Proofs.CliLemmas
